@@ -7,6 +7,8 @@ import (
 	"github.com/vektah/gqlparser/v2/ast"
 )
 
+import "github.com/vektah/gqlparser/v2/verifhook"
+
 type Events struct {
 	operationVisitor []func(walker *Walker, operation *ast.OperationDefinition)
 	field            []func(walker *Walker, field *ast.Field)
@@ -143,6 +145,7 @@ func (w *Walker) walkFragment(it *ast.FragmentDefinition) {
 }
 
 func (w *Walker) walkDirectives(parentDef *ast.Definition, directives []*ast.Directive, location ast.DirectiveLocation) {
+	verifhook.Step(verifhook.SiteWalkDirectives)
 	for _, dir := range directives {
 		def := w.Schema.Directives[dir.Name]
 		dir.Definition = def
@@ -169,6 +172,7 @@ func (w *Walker) walkDirectives(parentDef *ast.Definition, directives []*ast.Dir
 }
 
 func (w *Walker) walkValue(value *ast.Value) {
+	verifhook.Step(verifhook.SiteWalkValue)
 	if value.Kind == ast.Variable && w.CurrentOperation != nil {
 		value.VariableDefinition = w.CurrentOperation.VariableDefinitions.ForName(value.Raw)
 		if value.VariableDefinition != nil {
@@ -221,6 +225,7 @@ func (w *Walker) walkSelectionSet(parentDef *ast.Definition, it ast.SelectionSet
 }
 
 func (w *Walker) walkSelection(parentDef *ast.Definition, it ast.Selection) {
+	verifhook.Step(verifhook.SiteWalkSelection)
 	switch it := it.(type) {
 	case *ast.Field:
 		var def *ast.FieldDefinition
